@@ -119,10 +119,12 @@ def o_valid(template: str, dummy: bool = False, excl=()) -> bool:
     return isinstance(a.serialize(), str) and is_sequence_valid(template) is True
 
 
-def o_deferred(slot: str, tail: str, dummy: bool = False, excl=()) -> bool:
-    """a syntactically valid string with an unresolvable modification parses; mass/comp raise a ValueError, never return"""
+def o_deferred(slot: str, tail: str, dummy: bool = False, form: str = "xq%s", excl=()) -> bool:
+    """a syntactically valid string with an unresolvable modification parses; mass/comp raise a ValueError, never return.
+    `form` places the (symbolic) tail inside a value of the corpus: bare unknown names, the empty value, empty or unknown '|'
+    alternatives, tagged names, prefixed names (Obs:, U:) - none of them names anything in any vocabulary."""
     from peptacular.mass_calc import mass, comp
-    val = "xq" + tail
+    val = form.replace("%s", tail)
     s = {"res": f"PE[{val}]P", "nterm": f"[{val}]-PEP", "cterm": f"PEP-[{val}]", "labile": "{" + val + "}PEP", "unknown": f"[{val}]?PEP",
          "interval": f"P(EP)[{val}]", "static": f"<[{val}]@P>PEP"}[slot]
     a = PP.parse(s)
